@@ -90,6 +90,16 @@ fn definitions(rng: &mut Rng, extra: usize) -> Vec<Vec<u8>> {
             }
         }
     }
+    // every decimal digit as a suffix, alone, after a 1 and before a 0
+    for d in b'0'..=b'9' {
+        for pat in [vec![d], vec![b'1', d], vec![d, b'0'], vec![d, d]] {
+            for stem in [&b"TRIGger"[..], b"CH", b"L"] {
+                let mut x = stem.to_vec();
+                x.extend_from_slice(&pat);
+                defs.push(x);
+            }
+        }
+    }
     for d in [&b"MINimum"[..], b"MAXimum", b"DEFault", b"UP", b"DOWN", b"INFinity", b"NINFinity", b"NAN", b"ONCE", b"L125", b"ASCii2", b"X"] {
         defs.push(d.to_vec());
     }
@@ -144,6 +154,32 @@ pub fn rows(args: &[String]) -> i32 {
         }
         // single-edit neighbours of short form, long form and the definition as written
         let short_len = alpha.iter().take_while(|c| c.is_ascii_uppercase() || c.is_ascii_digit()).count();
+        // the definition's own suffix with every digit appended / prepended / substituted, and every single digit
+        let own: &[u8] = if t == def.len() { b"" } else { &def[def.len() - t..] };
+        for stem in [&alpha[..short_len.min(alpha.len())], alpha] {
+            for v in [stem.to_vec(), stem.to_ascii_lowercase()] {
+                for d in b'0'..=b'9' {
+                    let mut variants: Vec<Vec<u8>> = vec![vec![d]];
+                    let mut a = own.to_vec();
+                    a.push(d);
+                    variants.push(a);
+                    let mut b = vec![d];
+                    b.extend_from_slice(own);
+                    variants.push(b);
+                    if !own.is_empty() {
+                        let mut c = own.to_vec();
+                        let k = c.len() - 1;
+                        c[k] = d;
+                        variants.push(c);
+                    }
+                    for x in variants {
+                        let mut c = v.clone();
+                        c.extend_from_slice(&x);
+                        emit(def, &c, &mut out);
+                    }
+                }
+            }
+        }
         for base in [&alpha[..short_len], alpha, &def[..]] {
             for i in 0..=base.len() {
                 for f in foreign {
